@@ -22,6 +22,8 @@ type VerifSlotState struct {
 	Pending int
 	// RecordBuf is the capacity of the compressed-chunk read buffer.
 	RecordBuf int
+	// QueueCap is the capacity, in entries, of the queue of message index entries.
+	QueueCap int
 }
 
 // VerifSlots reports the chunk-slot state of it. ok is false when it is not index-based.
@@ -39,6 +41,7 @@ func VerifSlots(it MessageIterator) (st VerifSlotState, ok bool) {
 	}
 	st.Pending = len(ii.messageIndexes) - ii.curMessageIndex
 	st.RecordBuf = cap(ii.recordBuf)
+	st.QueueCap = cap(ii.messageIndexes)
 	return st, true
 }
 
